@@ -154,11 +154,28 @@ fn build_router(kind: u64, el: u64, n: u64, d: u64, z: bool) -> Router {
     }
 }
 
-fn servers(kind: u64, el: u64, n: u64, d: u64, z: bool) -> Arc<Servers> {
-    static M: OnceLock<Mutex<HashMap<(u64, u64, u64, u64, bool), Arc<Servers>>>> = OnceLock::new();
-    let mut g = M.get_or_init(|| Mutex::new(HashMap::new())).lock().unwrap();
-    g.entry((kind, el, n, d, z)).or_insert_with(|| Arc::new(net::start_servers(build_router(kind, el, n, d, z)))).clone()
+type Key = (u64, u64, u64, u64, bool);
+
+/// servers of a configuration; they cannot be stopped, so they are kept. Starting
+/// one can fail transiently (no free port while other checks churn connections): retry.
+fn servers(k: Key) -> Result<Arc<Servers>, String> {
+    static M: OnceLock<Mutex<HashMap<Key, Arc<Servers>>>> = OnceLock::new();
+    let mut g = M.get_or_init(|| Mutex::new(HashMap::new())).lock().unwrap_or_else(|e| e.into_inner());
+    if let Some(s) = g.get(&k) { return Ok(s.clone()); }
+    for attempt in 0..40 {
+        if let Ok(s) = guard(move || net::start_servers(build_router(k.0, k.1, k.2, k.3, k.4))) {
+            let s = Arc::new(s); g.insert(k, s.clone()); return Ok(s);
+        }
+        std::thread::sleep(Duration::from_millis(250 * (1 + attempt.min(8))));
+    }
+    Err("badcase:cannot-start-servers".into())
 }
+
+/// the connections of the configuration in use, reused by consecutive cases of
+/// that configuration (cases are generated sorted by configuration) and dropped
+/// on the first error or when the configuration changes
+struct Live { key: Key, sv: Arc<Servers>, raw_tcp: Option<RawPeer>, raw_ws: Option<RawPeer>, client: Option<Arc<Client>>, aclient: Option<Arc<AsyncClient>> }
+static LIVE: Mutex<Option<Live>> = Mutex::new(None);
 
 struct Case { kind: u64, el: u64, pull: u64, n: u64, d: u64, z: bool, data: Vec<u8>, w: String, f: String, cj: u64, slp: u64, vm: u64, vs: u64 }
 
@@ -210,17 +227,19 @@ fn hl(r: Option<Result<Vec<u8>, String>>) -> String {
 }
 
 /// the crate's high-level pullers over the chosen client; returns (vec, typed)
-fn high_level(c: &Case, sv: &Servers) -> (String, String) {
+fn high_level(c: &Case, lv: &mut Live) -> (String, String) {
     let res = resource(c);
     let (kind, el) = (c.kind, c.el);
-    match c.pull {
+    let out = match c.pull {
         0 => {
-            let addr = sv.tcp;
-            let r2 = res.clone();
-            let vec = hl(bounded(move || { let cl = Client::connect(addr).map_err(|e| e.to_string())?; repe::pull_to_vec(&cl, &r2).map_err(|e| e.to_string()) }));
+            let cl = match &lv.client {
+                Some(cl) => cl.clone(),
+                None => match Client::connect(lv.sv.tcp) { Ok(cl) => { let cl = Arc::new(cl); lv.client = Some(cl.clone()); cl } Err(e) => return (format!("err:connect:{}", clean(e.to_string())), "na".into()) },
+            };
+            let (r2, c2) = (res.clone(), cl.clone());
+            let vec = hl(bounded(move || repe::pull_to_vec(&c2, &r2).map_err(|e| e.to_string())));
             let typed = if kind > 2 { "na".to_string() } else {
                 hl(bounded(move || {
-                    let cl = Client::connect(addr).map_err(|e| e.to_string())?;
                     match (kind, el) {
                         (0, _) => repe::pull_value::<Val>(&cl, &res).map(|v| enc_val(&v)),
                         (1, 0) => repe::pull_typed_slice::<u8>(&cl, &res).map(|v| enc_u8(&v)),
@@ -232,40 +251,57 @@ fn high_level(c: &Case, sv: &Servers) -> (String, String) {
             (vec, typed)
         }
         p => {
-            let ws = p == 2;
-            let (tcp, wsa) = (sv.tcp, sv.ws);
-            net::runtime().block_on(async move {
-                async fn both<C: repe::AsyncSvsClient>(cl: &C, res: &str, kind: u64, el: u64) -> (String, String) {
-                    let vec = match tokio::time::timeout(T_WAIT, repe::pull_to_vec_async(cl, res)).await { Err(_) => hl(None), Ok(r) => hl(Some(r.map_err(|e| e.to_string()))) };
+            async fn vec_pull<C: repe::AsyncSvsClient>(cl: &C, res: &str) -> String {
+                match tokio::time::timeout(T_WAIT, repe::pull_to_vec_async(cl, res)).await { Err(_) => hl(None), Ok(r) => hl(Some(r.map_err(|e| e.to_string()))) }
+            }
+            async fn typed_pull<C: repe::AsyncSvsClient>(cl: &C, res: &str, kind: u64, el: u64) -> String {
+                if kind > 2 { return "na".to_string(); }
+                let fut = async {
+                    match (kind, el) {
+                        (0, _) => repe::pull_value_async::<Val, _>(cl, res).await.map(|v| enc_val(&v)),
+                        (1, 0) => repe::pull_typed_slice_async::<u8, _>(cl, res).await.map(|v| enc_u8(&v)),
+                        (1, _) => repe::pull_typed_slice_async::<f64, _>(cl, res).await.map(|v| enc_f64(&v)),
+                        _ => repe::pull_complex_slice_async::<f32, _>(cl, res).await.map(|v| enc_cplx(&v)),
+                    }.map_err(|e| e.to_string())
+                };
+                match tokio::time::timeout(T_WAIT, fut).await { Err(_) => hl(None), Ok(r) => hl(Some(r)) }
+            }
+            let (tcp, wsa) = (lv.sv.tcp, lv.sv.ws);
+            if p == 2 {
+                // a fresh WebSocket client for each pull: on a reused connection every pull waits
+                // ~40 ms (the cancel notify and the following open are two small writes)
+                net::runtime().block_on(async {
+                    let url = format!("ws://{wsa}/repe");
+                    let vec = match tokio::time::timeout(T_WAIT, WebSocketClient::connect(&url)).await {
+                        Ok(Ok(cl)) => vec_pull(&cl, &res).await,
+                        Ok(Err(e)) => format!("err:connect:{}", clean(e.to_string())),
+                        Err(_) => "timeout".into(),
+                    };
                     let typed = if kind > 2 { "na".to_string() } else {
-                        let fut = async {
-                            match (kind, el) {
-                                (0, _) => repe::pull_value_async::<Val, _>(cl, res).await.map(|v| enc_val(&v)),
-                                (1, 0) => repe::pull_typed_slice_async::<u8, _>(cl, res).await.map(|v| enc_u8(&v)),
-                                (1, _) => repe::pull_typed_slice_async::<f64, _>(cl, res).await.map(|v| enc_f64(&v)),
-                                _ => repe::pull_complex_slice_async::<f32, _>(cl, res).await.map(|v| enc_cplx(&v)),
-                            }.map_err(|e| e.to_string())
-                        };
-                        match tokio::time::timeout(T_WAIT, fut).await { Err(_) => hl(None), Ok(r) => hl(Some(r)) }
+                        match tokio::time::timeout(T_WAIT, WebSocketClient::connect(&url)).await {
+                            Ok(Ok(cl)) => typed_pull(&cl, &res, kind, el).await,
+                            Ok(Err(e)) => format!("err:connect:{}", clean(e.to_string())),
+                            Err(_) => "timeout".into(),
+                        }
                     };
                     (vec, typed)
-                }
-                if ws {
-                    match tokio::time::timeout(T_WAIT, WebSocketClient::connect(&format!("ws://{wsa}/repe"))).await {
-                        Ok(Ok(cl)) => both(&cl, &res, kind, el).await,
-                        Ok(Err(e)) => (format!("err:connect:{}", clean(e.to_string())), "na".into()),
-                        Err(_) => ("timeout".into(), "na".into()),
-                    }
-                } else {
-                    match tokio::time::timeout(T_WAIT, AsyncClient::connect(tcp)).await {
-                        Ok(Ok(cl)) => both(&cl, &res, kind, el).await,
-                        Ok(Err(e)) => (format!("err:connect:{}", clean(e.to_string())), "na".into()),
-                        Err(_) => ("timeout".into(), "na".into()),
-                    }
-                }
-            })
+                })
+            } else {
+                let cl = match &lv.aclient {
+                    Some(cl) => cl.clone(),
+                    None => match net::runtime().block_on(async { tokio::time::timeout(T_WAIT, AsyncClient::connect(tcp)).await }) {
+                        Ok(Ok(cl)) => { let cl = Arc::new(cl); lv.aclient = Some(cl.clone()); cl }
+                        Ok(Err(e)) => return (format!("err:connect:{}", clean(e.to_string())), "na".into()),
+                        Err(_) => return ("timeout".into(), "na".into()),
+                    },
+                };
+                net::runtime().block_on(async { (vec_pull(&*cl, &res).await, typed_pull(&*cl, &res, kind, el).await) })
+            }
         }
-    }
+    };
+    // a puller that timed out leaves its connection in an unknown state
+    if out.0 == "timeout" || out.1 == "timeout" { lv.client = None; lv.aclient = None; }
+    out
 }
 
 /// what a streaming zstd decoder yields from `stream` before it ends or fails
@@ -277,12 +313,7 @@ fn unzstd_prefix(stream: &[u8]) -> Vec<u8> {
     out
 }
 
-fn run_inner(c: &Case) -> Result<String, String> {
-    // the BEVE kinds: the case's data must be what this process serializes
-    if c.kind <= 2 && value_bytes(c.kind, c.el, c.vm as usize, c.vs) != c.data { return Err("badcase:data-is-not-the-value".into()); }
-    let sv = servers(c.kind, c.el, c.n, c.d, c.z);
-    let raw = if c.pull == 2 { Raw::Ws(RawWs::connect(sv.ws)?) } else { Raw::Tcp(RawTcp::connect(sv.tcp).map_err(|e| e.to_string())?) };
-    let mut peer = RawPeer { raw, id: 100 };
+fn raw_exchange(c: &Case, peer: &mut RawPeer) -> Result<(Vec<String>, String, Vec<String>, String, Vec<u8>), String> {
     let mut rng = Rng::new(c.slp ^ 0x5151);
     // first stream: next until last / error, then once more
     let sid = peer.open(c)?;
@@ -304,9 +335,36 @@ fn run_inner(c: &Case) -> Result<String, String> {
     for _ in 0..c.cj { let r = peer.next(sid2)?; let done = !r.starts_with("c0."); cp.push(r); if done { break; } }
     peer.cancel(sid2)?;
     let after_cancel = peer.next(sid2)?;
+    Ok((pulls, after_end, cp, after_cancel, stream))
+}
+
+fn run_inner(c: &Case) -> Result<String, String> {
+    // the BEVE kinds: the case's data must be what this process serializes
+    if c.kind <= 2 && value_bytes(c.kind, c.el, c.vm as usize, c.vs) != c.data { return Err("badcase:data-is-not-the-value".into()); }
+    let key: Key = (c.kind, c.el, c.n, c.d, c.z);
+    let t0 = std::time::Instant::now();
+    let mut live = LIVE.lock().unwrap_or_else(|e| e.into_inner());
+    if live.as_ref().map(|l| l.key) != Some(key) {
+        *live = None;
+        *live = Some(Live { key, sv: servers(key)?, raw_tcp: None, raw_ws: None, client: None, aclient: None });
+    }
+    let t1 = t0.elapsed();
+    let lv = live.as_mut().unwrap();
+    let slot = if c.pull == 2 { &mut lv.raw_ws } else { &mut lv.raw_tcp };
+    if slot.is_none() {
+        let raw = if c.pull == 2 { Raw::Ws(RawWs::connect(lv.sv.ws)?) } else { Raw::Tcp(RawTcp::connect(lv.sv.tcp).map_err(|e| e.to_string())?) };
+        *slot = Some(RawPeer { raw, id: 100 });
+    }
+    let (pulls, after_end, cp, after_cancel, stream) = match raw_exchange(c, slot.as_mut().unwrap()) {
+        Ok(x) => x,
+        Err(e) => { *slot = None; return Err(e); }
+    };
+    let t2 = t0.elapsed();
     let plain = if c.z { hex(&unzstd_prefix(&stream)) } else { "na".to_string() };
-    let (vec, typed) = high_level(c, &sv);
-    Ok(format!("pulls={} ae={} cp={} ac={} plain={} vec={} typed={}", pulls.join("|"), after_end, if cp.is_empty() { "-".into() } else { cp.join("|") }, after_cancel, plain, vec, typed))
+    let (vec, typed) = high_level(c, lv);
+    // development aid: where the time of a case goes (ignored by the driver)
+    let timing = if std::env::var("C09_TIMING").is_ok() { format!(" t={}/{}/{}", t1.as_micros(), t2.as_micros(), t0.elapsed().as_micros()) } else { String::new() };
+    Ok(format!("pulls={} ae={} cp={} ac={} plain={} vec={} typed={}{}", pulls.join("|"), after_end, if cp.is_empty() { "-".into() } else { cp.join("|") }, after_cancel, plain, vec, typed, timing))
 }
 
 fn run_case(line: &str) -> String {
@@ -317,11 +375,14 @@ fn run_case(line: &str) -> String {
     })();
     let Some(c) = parsed else { return "crash=badcase:parse".into() };
     if c.n == 0 || c.kind > 4 || c.pull > 2 { return "crash=badcase:range".into(); }
-    match guard(move || run_inner(&c)) { Ok(Ok(o)) => o, Ok(Err(e)) => format!("crash={}", clean(e)), Err(()) => "crash=panic".into() }
+    static HOOK: std::sync::Once = std::sync::Once::new();
+    static LAST: Mutex<String> = Mutex::new(String::new());
+    HOOK.call_once(|| std::panic::set_hook(Box::new(|i| { *LAST.lock().unwrap_or_else(|e| e.into_inner()) = i.to_string(); })));
+    match guard(move || run_inner(&c)) { Ok(Ok(o)) => o, Ok(Err(e)) => format!("crash={}", clean(e)), Err(()) => format!("crash=panic:{}", clean(LAST.lock().unwrap_or_else(|e| e.into_inner()).as_str())) }
 }
 
 // ---- generation
-struct Gen { out: Vec<String>, k: u64, cross: bool }
+struct Gen { out: Vec<(Key, String)>, k: u64, cross: bool }
 impl Gen {
     #[allow(clippy::too_many_arguments)]
     fn push(&mut self, kind: u64, el: u64, n: u64, d: u64, z: bool, data: &[u8], w: &[u64], f: Option<u64>, slp: u64, vm: u64, vs: u64) {
@@ -331,8 +392,8 @@ impl Gen {
         let cj = [0u64, 1, 2, 3, 1, 5][(self.k / 3 % 6) as usize];
         let ws = if w.is_empty() { "-".to_string() } else { w.iter().map(|x| hx(*x)).collect::<Vec<_>>().join(".") };
         for pull in pulls {
-            self.out.push(format!("kind={} el={} pull={} n={} d={} z={} data={} w={} f={} cj={} slp={} vm={} vs={}",
-                kind, el, pull, hx(n), hx(d), z as u8, hex(data), ws, f.map(hx).unwrap_or_else(|| "-".into()), hx(cj), hx(slp), hx(vm), hx(vs)));
+            self.out.push(((kind, el, n, d, z), format!("kind={} el={} pull={} n={} d={} z={} data={} w={} f={} cj={} slp={} vm={} vs={}",
+                kind, el, pull, hx(n), hx(d), z as u8, hex(data), ws, f.map(hx).unwrap_or_else(|| "-".into()), hx(cj), hx(slp), hx(vm), hx(vs))));
         }
     }
 }
@@ -439,7 +500,10 @@ fn gen_cases(seed: u64, thorough: bool) -> Vec<String> {
             }
         }
     }
-    g.out.into_iter().enumerate().map(|(i, c)| format!("i={i} {c}")).collect()
+    // consecutive cases share their servers and connections: group by configuration, spread
+    // the configurations so that every shard (index modulo the shard count) sees few of them
+    g.out.sort_by_key(|(k, _)| *k);
+    g.out.into_iter().enumerate().map(|(i, (_, c))| format!("i={i} {c}")).collect()
 }
 
 fn main() {
